@@ -25,7 +25,7 @@ ASSUMPTIONS = [
 ]
 N = {"quick": 1200, "thorough": 24000}
 REQUIRE = {"quick": {"decisive_true": 300, "decisive_false": 300, "ell_events": 300, "rect_events": 500, "history_events": 60}}
-TIMEOUT = {"quick": 900, "thorough": 3600}
+TIMEOUT = {"quick": 900, "thorough": 7200}
 
 
 def call_real(order, r1, r2, slack, via):
